@@ -769,7 +769,7 @@ func ruleC10ConvertGuarded(c *Ctx) {
 				if !tested && fn.Parent() == nil {
 					root, chain := typeExpr(target)
 					if p, isP := root.(*ssa.Parameter); isP && p.Parent() == fn {
-						tested = c.kindTestedAtCallers(fn, p, chain, 3)
+						tested = c.kindTestedAtCallers(fn, p, chain, 6)
 					}
 				}
 				c.R.Check(tested, rule, core.FuncName(fn)+":Convert@"+c.pos(call), c.pos(call), "the kind of the target type is tested before the conversion", "reflect.Value.Convert is applied with a target type whose kind is not tested on the way: when the two maps' key types are, say, a string type and int, the conversion panics instead of the comparison (or lookup) failing")
